@@ -293,7 +293,7 @@ struct Extractor {
     void emitRecord(const CXXRecordDecl *RD) {
         unsigned id = recIds[RD];
         std::string s = "{\"id\":" + std::to_string(id) + ",\"decl\":" + std::to_string(did(RD)) +
-                        ",\"qname\":" + jstr(qname(RD)) + ",\"tname\":" + jstr(tname(RD));
+                        ",\"qname\":" + jstr(Ctx.getTypeDeclType(RD).getCanonicalType().getAsString(PP)) + ",\"tname\":" + jstr(tname(RD));
         s += ",\"targs\":" + targsJson(RD);
         s += ",\"file\":" + jstr(fileOf(RD->getLocation())) + ",\"line\":" + std::to_string(lineOf(RD->getLocation()));
         bool scope = inScope(RD);
@@ -325,6 +325,11 @@ struct Extractor {
                     s += "{\"id\":" + std::to_string(did(F)) + ",\"name\":" + jstr(F->getNameAsString()) +
                          ",\"t\":" + std::to_string(tid(F->getType()));
                     if (F->isMutable()) s += ",\"mutable\":true";
+                    if (auto *ST = F->getType()->getAs<SubstTemplateTypeParmType>()) {
+                        // the declared type is a template type parameter of the enclosing template (a user-supplied type)
+                        if (auto *PD = ST->getReplacedParameter()->getDecl()) s += ",\"tpar\":" + jstr(PD->getNameAsString());
+                        else s += ",\"tpar\":\"?\"";
+                    }
                     if (F->hasInClassInitializer()) {
                         s += ",\"has_init\":true";
                         // which own member does a reference NSDMI bind to?  (sd_vector's `const T& low = m_low;`)
@@ -333,6 +338,14 @@ struct Extractor {
                             if (auto *ME = dyn_cast<MemberExpr>(E))
                                 if (isa<CXXThisExpr>(ME->getBase()->IgnoreParenImpCasts()))
                                     s += ",\"init_own_member\":" + jstr(ME->getMemberDecl()->getNameAsString());
+                            // `const raw_wrapper raw = raw_wrapper(*this)`: initialiser built from the object itself
+                            struct ThisFinder : RecursiveASTVisitor<ThisFinder> {
+                                bool found = false, other = false;
+                                bool VisitCXXThisExpr(CXXThisExpr *) { found = true; return true; }
+                                bool VisitDeclRefExpr(DeclRefExpr *D) { if (isa<VarDecl>(D->getDecl())) other = true; return true; }
+                            } TF;
+                            TF.TraverseStmt(const_cast<Expr *>(I));
+                            if (TF.found && !TF.other) s += ",\"init_from_this\":true";
                         }
                     }
                     s += ",\"access\":" + jstr(F->getAccess() == AS_public ? "public" : F->getAccess() == AS_private ? "private" : "protected");
